@@ -179,7 +179,7 @@ func implRun(chunks [][]byte) string {
 			msgs = append(msgs, kindClass(m.ConnType)+":"+strings.Join(hs, ","))
 		}
 		if errs != "" {
-			return "X " + errs + " " + joinMsgs(msgs)
+			return "X " + canonErr(errs) + " " + joinMsgs(msgs)
 		}
 	}
 	return fmt.Sprintf("O %d %s", len(p.Buffered()), joinMsgs(msgs))
@@ -196,10 +196,25 @@ func modelErrText(e string) string {
 	switch {
 	case e == "recovered":
 		return "Protocol error: invalid request"
-	case e == "http":
-		return "?http"
+	case e == "http:0":
+		return "invalid HTTP request"
+	case e == "http:1":
+		return "strconv.ParseUint: invalid syntax"
+	case e == "http:2":
+		return "strconv.ParseUint: value out of range"
 	}
 	return strings.TrimPrefix(respgen.CanonModel("E "+e), "E ")
+}
+
+// strconv errors quote their input: keep the class only
+func canonErr(e string) string {
+	if strings.HasPrefix(e, "strconv.ParseUint:") {
+		if strings.HasSuffix(e, "invalid syntax") {
+			return "strconv.ParseUint: invalid syntax"
+		}
+		return "strconv.ParseUint: value out of range"
+	}
+	return e
 }
 
 func modelRun(drv *model.Driver, chunks [][]byte) string {
@@ -225,6 +240,8 @@ func modelRun(drv *model.Driver, chunks [][]byte) string {
 		return "O " + f[1] + " " + canonMsgs(f[2:])
 	case "X":
 		return "X " + modelErrText(f[1]) + " " + canonMsgs(f[2:])
+	case "A": // return nil, errInvalidHTTP: the messages of that call are dropped
+		return "X invalid HTTP request " + canonMsgs(f[1:])
 	}
 	return out
 }
@@ -328,6 +345,8 @@ func runC16(r *hx.Result, cfg hx.Config) {
 			if rng.Intn(4) == 0 {
 				b = append([]byte{"GPO"[rng.Intn(3)]}, b...)
 				gen = "gpo+" + gen
+			} else if rng.Intn(3) == 0 {
+				gen, b = "http", respgen.RandHTTP(rng)
 			}
 		}
 		if len(b) == 0 {
@@ -352,18 +371,15 @@ func runC16(r *hx.Result, cfg hx.Config) {
 		case "panic":
 			ic = "P"
 		default:
-			ic = "E " + impl.Err
+			ic = "E " + canonErr(impl.Err)
 		}
 		mc := m
 		if strings.HasPrefix(m, "E ") {
 			mc = "E " + modelErrText(m[2:])
 		}
 		ok := ic == mc
-		if m == "E http" { // HTTP path taken: the model only decides that it is taken
-			ok = impl.Kind == 9999 || impl.Outcome == "panic" // readNextHTTPCommand itself is not modelled
-			r.Dist("cmd:http-sniffed")
-		} else if impl.Kind == 9999 {
-			ok = false
+		if impl.Kind == 9999 {
+			r.Dist("cmd:http:" + impl.Outcome)
 		}
 		r.Dist("cmd:" + gen + ":" + impl.Outcome)
 		r.Count("c\x00"+string(b), false)
@@ -386,6 +402,9 @@ func runC16(r *hx.Result, cfg hx.Config) {
 			n = 1500 + rng.Intn(1000) // a long pipeline
 		}
 		stream := randStream(rng, n, proto, big)
+		if si%5 == 4 { // an HTTP request after the commands
+			stream = append(stream, respgen.RandHTTP(rng)...)
+		}
 		if si%4 == 3 { // a malformed frame somewhere
 			_, junk := respgen.RandPacket(rng)
 			at := 0
@@ -433,9 +452,6 @@ func runC16(r *hx.Result, cfg hx.Config) {
 			if len(stream) < 6000 && (gi < 12 || gi%7 == 0) || gi == 0 && len(stream) < 200000 {
 				m := modelRun(drv, chunks)
 				modelChecked++
-				if strings.HasPrefix(m, "X ?http") {
-					continue
-				}
 				if m != impl {
 					r.Fail(hx.Failure{Kind: "correspondence", Signature: "conn-run-model", What: "ReadMessages and the model conn_run disagree",
 						Case: map[string]interface{}{"stream": q(stream), "cuts": offs}, Impl: impl, Model: m})
